@@ -26,7 +26,7 @@ type ObsObj struct {
 	Kind   string `json:"kind"` // built | dec-cbor | dec-json | ev-signed | ev-decoded
 	Claims int    `json:"claims"`
 	Signer int    `json:"signer,omitempty"`
-	Tree   []int  `json:"tree,omitempty"`  // pairs (node, variant): byz.tree on the CBOR payload / json.member on the document
+	Tree   []int  `json:"tree,omitempty"` // pairs (node, variant): byz.tree on the CBOR payload / json.member on the document
 	Setter bool   `json:"via_setters,omitempty"`
 }
 
